@@ -143,8 +143,14 @@ func init() {
 			gen.LoadTexts(c.Repo)
 			c17Frames = buildReaderFrames(c)
 		},
-		Total: func(c *Ctx) int64 { return c17PlanFor(c).total() },
-		Run:   c17Case,
+		Total: func(c *Ctx) int64 { return c17PlanFor(c).total() + numLevelCasesWriter() },
+		Run: func(c *Ctx, i int64) {
+			if t := c17PlanFor(c).total(); i >= t {
+				levelCaseWriter(c, i-t) // "options take effect ... and persist across Reset": the compression level
+				return
+			}
+			c17Case(c, i)
+		},
 	})
 }
 
